@@ -142,6 +142,68 @@ Section Window.
     rewrite (is_available_pfree _ _ (lo_nonempty _ Hl) Hne Hp). f_equal.
     apply avail_spec_true. exact Hc.
   Qed.
+
+  (* the remaining checks of add_window, named *)
+  Definition win_sp (sparse : option bool) : bool :=
+    match sparse with Some true => true | _ => false end.
+  Definition win_width_check (sparse : option bool) : res unit :=
+    if negb (m_dw wm =? m_dw m) then
+      let! _ := check (match sparse with None => false | _ => true end) ValueError in
+      check (negb (negb (win_sp sparse) && negb (m_dw m mod m_dw wm =? 0))) ValueError
+    else Ok tt.
+  Definition win_ratio (sparse : option bool) : Z :=
+    if negb (win_sp sparse) then m_dw m / m_dw wm else 1.
+  Definition win_size (sparse : option bool) : Z := Z.shiftl 1 (m_aw wm) / win_ratio sparse.
+  Definition win_align (sparse : option bool) : Z := Z.max (m_al m) (m_aw wm / win_ratio sparse).
+
+  Lemma add_window_eq wid nmo addr sparse :
+    add_window m wid wm nmo addr sparse =
+      let! _ := check (negb (m_frozen m)) ValueError in
+      let! _ := check (negb (has_win m wid)) ValueError in
+      let! _ := check (negb (m_dw wm >? m_dw m)) ValueError in
+      let! _ := win_width_check sparse in
+      let! n := win_name_arg nmo in
+      let! av := is_available (m_names m) (win_queries wm n) in
+      let! _ := check av ValueError in
+      let! _ := check (Z.land (win_ratio sparse) (win_ratio sparse - 1) =? 0) ValueError in
+      let! _ := check (negb (win_ratio sparse >? Z.shiftl 1 (m_al wm))) ValueError in
+      let! '(s, e) := compute_addr_range m addr (VInt (win_size sparse)) (win_align sparse) in
+      let! rs := rm_insert (m_ranges m) {| e_start := s; e_stop := e; e_step := win_ratio sparse;
+                                           e_asg := AW wid |} in
+      match m with
+      | MM a d l _ ress wins names _ f =>
+          Ok (MM a d l rs ress
+                 (wins ++ [({| w_id := wid; w_name := n; w_start := s; w_stop := e;
+                               w_step := win_ratio sparse |}, set_frozen wm)])
+                 (names ++ win_queries wm n) e f, (s, e, win_ratio sparse))
+      end.
+  Proof. reflexivity. Qed.
+
+  (* a legal window name is never refused: once every other check passes, the call succeeds (neither
+     the assert of is_available nor those of _RangeMap.insert can fire) *)
+  Lemma window_legal_accepted wid nmo n addr sparse s e :
+    m_frozen m = false -> has_win m wid = false -> (m_dw wm >? m_dw m) = false ->
+    win_width_check sparse = Ok tt -> win_name_arg nmo = Ok n ->
+    (forall q x, In q (win_queries wm n) -> In x (m_names m) -> ~ name_conflict q x) ->
+    Z.land (win_ratio sparse) (win_ratio sparse - 1) = 0 ->
+    (win_ratio sparse >? Z.shiftl 1 (m_al wm)) = false ->
+    compute_addr_range m addr (VInt (win_size sparse)) (win_align sparse) = Ok (s, e) ->
+    exists m', add_window m wid wm nmo addr sparse = Ok (m', (s, e, win_ratio sparse)).
+  Proof.
+    intros Hf Hid Hdw Hwc Hn Hc Hpow Hra Hcar.
+    pose proof (deep_local _ (reachable_deep _ _ Hr Hm)) as Hl.
+    assert (HA0 : 0 <= win_align sparse) by (pose proof (lo_al _ Hl); unfold win_align; lia).
+    destruct (car_inv _ _ _ _ _ _ HA0 Hcar) as (Hse & Hov).
+    destruct (lo_chain _ Hl) as (lo & Hch).
+    destruct (rm_insert_total lo (m_ranges m)
+                {| e_start := s; e_stop := e; e_step := win_ratio sparse; e_asg := AW wid |}
+                Hch Hse Hov) as (rs & Hins).
+    rewrite add_window_eq, Hf, Hid, Hdw, Hwc, Hn. cbn [negb check bind].
+    rewrite (window_free_available nmo n Hn Hc). cbn [check bind].
+    rewrite Hpow, Hra. cbn [Z.eqb negb check bind].
+    rewrite Hcar. cbn [bind]. rewrite Hins. cbn [bind].
+    destruct m. eexists. reflexivity.
+  Qed.
 End Window.
 
 (* ------------------------------------------------------------------ refused calls change nothing *)
